@@ -16,6 +16,15 @@ def poly_trace(ck, which):
                   "swallowing whole cells, outlines that run exactly along cell edges; centred on all 12 pentagons, on the antimeridian, "
                   "at high latitudes, between icosahedron vertices and at random places in both hemispheres, either winding; all "
                   "five fills + five size bounds per polygon; candidates = raster + edge walk + 1-disks + all outputs")
+    tb = os.path.join(ck.tdir, "bbox.ndjson")
+    d = vlib.run_driver(drv, ["bbox", ck.tier, ck.seed, tb], timeout=600)
+    if d["rc"] != 0:
+        raise vlib.InfraError("driver failed rc=%s %s" % (d["rc"], d["err"][-1500:]))
+    if '"bboxAbsent"' in open(tb).readline():
+        ck.ev.notes.append("MODEL-DRIFT: the bbox functions are no longer external symbols; the model-conformance part was skipped")
+    ck.trace("bbox-grid", "Trace_BBox", "Trace.cfg", tb, nchunks=16, balance=True,
+             what="bboxOverlapsBBox (both orders), bboxContainsBBox, bboxContains (internal, weak symbols) on random pairs of boxes of a "
+                  "15-degree grid, plain and transmeridian, against the set-of-points semantics of H3BBox.tla")
     ck.ev.assumptions += ["TLC 1.8 / JVM", "H3Grid.tla transcription + frozen tables (closure of the candidate set under N)",
                           "numeric projection harness/vpoly.h (long double planar lat/lng geometry, loops unwrapped the short way round; "
                           "ambiguity band 1e-11 rad for points, the chord-vs-great-circle bulge of each cell for shapes); ambiguous "
@@ -27,6 +36,18 @@ def poly_mc(ck):
           what="set algebra of the containment modes on an abstract universe: any assignment of observations consistent with geometry "
                "(wholly interior => vertices and centre inside => shares a point) admits fills satisfying all mode clauses, and the "
                "clauses force the nesting FULL <= CENTER <= OVERLAPPING on unambiguous cells")
+    ck.mc("MC_BBox", "MC_BBox.cfg", workers=vlib.NCPU, xmx="8g",
+          what="bbox.c antimeridian logic (bboxNormalization / normalizeLng, bboxContains, bboxOverlapsBBox, bboxContainsBBox) == "
+               "set-of-grid-points semantics for every pair of boxes narrower than half the globe on a 30-degree grid, plain and "
+               "transmeridian (1.3x10^5 pairs)")
+    ck.mc("MC_PolyIter", "MC_PolyIter.cfg", workers=vlib.NCPU, xmx="8g",
+          what="iterStepPolygonCompact + nextCell as a state machine over an abstract polygon (pentagon + hexagon base cell, target "
+               "resolution 1, every oracle satisfying bbox covering / containment soundness): terminates, emits in increasing index "
+               "order without nesting or duplicates, expands to exactly the cells passing the leaf test")
+    neg = vlib.tlc("MC_PolyIter", "MC_PolyIter_nocover.cfg", workers=8)
+    if neg["verdict"] != "invariant":
+        raise vlib.InfraError("negative control (bounding boxes that do not cover the children) was not rejected: %s" % neg["verdict"])
+    ck.ev.notes.append("negative control: without the covering guarantee of cellToBBox the iterator model violates Exact, as expected")
 
 
 def run(ck):
